@@ -1946,7 +1946,13 @@ XMLReader::xcodeMoreChars(          XMLCh* const            bufToFill
             //
             if (fRawBytesAvail == 0 ||
                 (needMode && (bytesLeft == fRawBytesAvail - fRawBufIndex)))
+            {
+                // The source ended in the middle of a multi-byte sequence:
+                // that is malformed input, not a regular end of input.
+                if (needMode && fRawBytesAvail != fRawBufIndex)
+                    ThrowXMLwithMemMgr(TranscodingException, XMLExcepts::Trans_BadSrcSeq, fMemoryManager);
                 return 0;
+            }
         }
 
         // Ask the transcoder to internalize another batch of chars. It is
